@@ -3,6 +3,8 @@ import re
 from math import isqrt
 ID = "C07"
 CRATE = "c07"
+# sibling sources whose edits enlarge the quick correspondence (fingerprints in source_pins.json)
+SOURCES = ["rlib/num_traits/src/lib.rs"]
 COQ_DIR = "C07"
 COQ_DEPS = ["C11"]
 PROFILES = ["debug", "release"]
